@@ -10,6 +10,8 @@ from __future__ import annotations
 
 from ..absint import Interp, Node, Raised, _PyCall
 from ..lnodes_model import load_classes
+import ast
+
 from ..model import AnalysisError
 from ..registry import rule
 
@@ -184,3 +186,56 @@ def dtype_merge(repo, res):
                 res.fail(key, f"a {kind} node with operand types {[d.split('.')[1] for d in dts]} is declared {str(got).split('.')[-1]}, expected {want.split('.')[1]}: "
                          + ("the narrower type drops the imaginary part / fraction of an operand" if (str(got) not in order or order.index(str(got)) < order.index(want))
                             else "the wider type is not what the operands deliver"), m.line(f.node))
+
+
+@rule(
+    "MATH-ARGTYPE",
+    ["C09"],
+    "the C formatter's MathFunction handler, interpreted on sample calls under a complex scalar type: the function name comes "
+    "from the real table only when no argument is complex-valued; pow(real base, complex exponent), atan2 with a complex "
+    "argument etc. must use the complex entry (a real `pow` would convert the exponent to double and drop its imaginary part)",
+    min_instances=8,
+)
+def math_argtype(repo, res):
+    FM = "ffcx.codegeneration.C.formatter"
+    m = repo.mod(FM)
+    cands = [f for f in m.funcs.values() if f.node.name == "_" and "MathFunction" in ast.unparse(f.node.args)]
+    if len(cands) != 1:
+        raise AnalysisError("C formatter: MathFunction handler not found")
+    h = cands[0]
+    res.functions.add(h.key)
+    table = None
+    for st in m.tree.body:
+        if isinstance(st, ast.Assign) and any(isinstance(t, ast.Name) and t.id == "math_table" for t in st.targets):
+            from ..model import const_value
+
+            table = const_value(st.value)
+    if table is None:
+        raise AnalysisError("C formatter: math_table not found")
+    S = lambda n, t: Node("Symbol", name=n, dtype=t)  # noqa: E731
+    R, C = "DataType.REAL", "DataType.SCALAR"
+    cases = [("power", [R, R], "real"), ("power", [R, C], "complex"), ("power", [C, R], "complex"), ("power", [C, C], "complex"),
+             ("sqrt", [R], "real"), ("sqrt", [C], "complex"), ("atan2", [R, R], "real"), ("exp", [C], "complex"), ("abs", [R], "real")]
+    for fn, _d, _k in cases:
+        if fn != "atan2" and fn not in table["complex128"]:
+            raise AnalysisError(f"math_table has no complex entry for `{fn}` (anchor vanished)")
+    for sname, rname in (("complex128", "float64"), ("complex64", "float32")):
+        for fn, dts, want_kind in cases:
+            key = f"{h.key}:{sname}:{fn}({','.join(d.split('.')[1] for d in dts)})"
+            res.ob(key)
+            it = Interp(repo, load_classes(repo), primary=FM)
+            it.overrides["warnings.warn"] = _PyCall(lambda *a, **k: None)
+            fmt = Node("Formatter", scalar_type=Node("dtype", name=sname), real_type=Node("dtype", name=rname),
+                       __call__=_PyCall(lambda a: a.f["name"] if isinstance(a, Node) and "name" in a.f else "x"))
+            call = Node("MathFunction", function=fn, args=[S(f"a{i}", d) for i, d in enumerate(dts)], dtype=C if C in dts else R)
+            try:
+                text = it.call_f(h, [fmt, call])
+            except Raised as e:
+                res.fail(key, f"MathFunction handler raises ({e.what}) for {fn} with argument types {dts}", m.line(h.node))
+                continue
+            got = str(text).split("(", 1)[0]
+            want = table[sname if want_kind == "complex" else rname].get(fn, fn)
+            if got != want:
+                res.fail(key, f"{fn} with argument types {[d.split('.')[1] for d in dts]} in a {sname} kernel is emitted as `{text}`; the "
+                         f"{'complex' if want_kind == 'complex' else 'real'} function `{want}` is required"
+                         + (": the real function converts the complex argument to its real part" if want_kind == "complex" else ""), m.line(h.node))
